@@ -226,3 +226,27 @@ Definition solo_ok (sk : list instr) : bool := wf_from sk false false.
    one activation of a skeleton with a single Work takes length sk + 3 steps, plus the return *)
 Definition whole_msgs (skf : nat -> list instr) (order : list (nat * nat)) : list nat :=
   flat_map (fun x => repeat (fst x) (length (skf (fst x)) + 4)) order.
+
+(* ---- two pipeline objects in one process (harness mode "twopipes") -------------------------------
+   Each pipeline object owns its lock and its SeqNumberAttr (SimplePipeline::addSeqNumber creates a
+   fresh one per call).  A trace of the process tags every event with the pipeline it belongs to;
+   the state is a PAIR of acceptor states and an event moves only the component of its own pipeline:
+   runs of A and B may overlap in time, and each pipeline counts its own deliveries from 0. *)
+Inductive pipe := PA | PB.
+Definition tev := (pipe * event)%type.
+Definition proj_pipe (p : pipe) (tr : list tev) : list event :=
+  flat_map (fun te => match fst te, p with PA, PA | PB, PB => [snd te] | _, _ => [] end) tr.
+Definition astep2 (qa : nat -> nat) (na : nat) (qb : nat -> nat) (nb : nat) (s : astate * astate) (te : tev)
+  : option (astate * astate) :=
+  match fst te with
+  | PA => match astep qa na (fst s) (snd te) with Some a' => Some (a', snd s) | None => None end
+  | PB => match astep qb nb (snd s) (snd te) with Some b' => Some (fst s, b') | None => None end
+  end.
+Fixpoint arun2 (qa : nat -> nat) (na : nat) (qb : nat -> nat) (nb : nat) (s : astate * astate) (tr : list tev)
+  : option (astate * astate) :=
+  match tr with
+  | [] => Some s
+  | e :: r => match astep2 qa na qb nb s e with Some s' => arun2 qa na qb nb s' r | None => None end
+  end.
+Definition accept_two (qa : nat -> nat) (na : nat) (qb : nat -> nat) (nb : nat) (tr : list tev) : bool :=
+  match arun2 qa na qb nb (a0, a0) tr with Some s => a_final qa na (fst s) && a_final qb nb (snd s) | None => false end.
